@@ -1,6 +1,7 @@
 package props
 
 import (
+	"os"
 	"fmt"
 	"strconv"
 	"strings"
@@ -80,6 +81,12 @@ func isCounterOf(c *Ctx, e *ir.Expr, status string, key string) bool {
 	if e != nil && e.Op == "res" && len(e.Args) == 1 && e.Args[0].Op == "tuple" {
 		if i, err := strconv.Atoi(e.Name); err == nil && i < len(e.Args[0].Args) {
 			e = stripConvE(e.Args[0].Args[i])
+		}
+	}
+	// (the zero a counter starts from may show up as an alternative of its own)
+	if e != nil && e.Op == "phi" {
+		if nz := nonZeroAlts(e); len(nz) == 1 {
+			e = stripConvE(nz[0])
 		}
 	}
 	if e == nil || e.Op != "counter" || e.Name != "true" || len(e.Args) != 1 {
@@ -494,9 +501,17 @@ func poWriters(c *Ctx) []poWriter {
 func statusTypestate(c *Ctx) {
 	w, r := c.W, c.R
 	ws := poWriters(c)
-	r.Floor("instantiated purchase-order writers", len(ws), 6)
+	nw := len(ws)
+	defer func() { r.Floor("instantiated purchase-order writers (status transitions)", nw, 6) }()
 	count := map[string]int{}
-	for _, pw := range ws {
+	var extra []poWriter
+	for qi := 0; qi < len(ws)+len(extra); qi++ {
+		var pw poWriter
+		if qi < len(ws) {
+			pw = ws[qi]
+		} else {
+			pw = extra[qi-len(ws)]
+		}
 		st := pw.Struct
 		if st.Op != "struct" {
 			// whole struct copied: genesis import or untouched re-store
@@ -517,6 +532,45 @@ func statusTypestate(c *Ctx) {
 			continue
 		}
 		status := fieldOfStruct(st, "Status")
+		// a status chosen between constants on the way to one store (`if accepted { po.Status = Accepted } else { po.Status =
+		// Rejected }; k.Set(po)`) is one transition per constant: each is judged where that constant is assigned — the
+		// assignment must stand under the guards of its transition
+		if alts := status.Alts(); len(alts) > 1 {
+			allConst := true
+			for _, a := range alts {
+				if a.Op != "const" {
+					allConst = false
+				}
+			}
+			var split []poWriter
+			if allConst {
+				for _, a := range alts {
+					sup := statusSuppliers(c, pw, a.Name)
+					if len(sup) == 0 {
+						split = nil
+						break
+					}
+					for _, sp := range sup {
+						st2 := *st
+						st2.Args = append([]*ir.Expr{}, st.Args...)
+						for i, f := range st2.Fields {
+							if f == "Status" {
+								st2.Args[i] = a
+							}
+						}
+						pw2 := pw
+						pw2.Chain, pw2.Struct = sp.chain, &st2
+						pw2.Eff.Site = sp.site
+						split = append(split, pw2)
+					}
+				}
+			}
+			if len(split) > 0 {
+				extra = append(extra, split...)
+				nw += len(split) - 1
+				continue
+			}
+		}
 		key := fn(pw.Top) + "|" + status.String()
 		count[status.String()]++
 		key = fmt.Sprintf("%s#%d", key, count[status.String()])
@@ -575,7 +629,7 @@ func statusTypestate(c *Ctx) {
 			r.Require(ok && k.String() == baseKey || isGenesis, "TS.status-transition", key, pos(c, pw.First), "any other writer keeps the loaded order's status (or is genesis import)", "Status = "+status.String())
 		}
 	}
-	r.Require(count[stRaised] >= 1 && count[stAccepted] >= 1 && count[stRejected] >= 2 && count[stCompleted] >= 1, "floor", "status-writers", "", "writers exist for Raised, Accepted, Rejected(x2) and Completed", fmt.Sprint(count))
+	r.Require(count[stRaised] >= 1 && count[stAccepted] >= 1 && count[stRejected] >= 1 && count[stCompleted] >= 1, "floor", "status-writers", "", "writers exist for Raised, Accepted, Rejected and Completed", fmt.Sprint(count))
 }
 
 func thresholds(c *Ctx, pw poWriter, status, baseKey, key string) {
@@ -604,12 +658,23 @@ func thresholds(c *Ctx, pw poWriter, status, baseKey, key string) {
 	}
 	fewAccepts := func(p ir.Pred) bool { return cmpIs(p, "<", accepts, minAcc) }
 	manyRejects := func(p ir.Pred) bool { return cmpIs(p, ">", rejects, thr) }
-	enoughAccepts := func(p ir.Pred) bool { return cmpIs(p, ">=", accepts, minAcc) }
+	enoughAccepts := func(p ir.Pred) bool {
+		if os.Getenv("MCDEBUG") == "thr" {
+			fmt.Fprintln(os.Stderr, "thr pred", p.Pol, p.E.String())
+		}
+		return cmpIs(p, ">=", accepts, minAcc)
+	}
 	notManyRejects := func(p ir.Pred) bool { return cmpIs(p, "<=", rejects, thr) }
 	switch status {
 	case stRejected:
 		a := g(stale) && g(fewAccepts)
 		b := g(manyRejects)
+		if !a && !b {
+			// one assignment serving both reasons (a verdict computed first, the status set afterwards): every path to it
+			// passes [stale and few accepts] or [many rejects] — (S and F) or R = (S or R) and (F or R), each a cut of its own
+			either := func(m1, m2 ir.Matcher) ir.Matcher { return func(p ir.Pred) bool { return m1(p) || m2(p) } }
+			a = g(either(stale, manyRejects)) && g(either(fewAccepts, manyRejects))
+		}
 		r.Require(a || b, "TS.status-transition", key+"|threshold", pos(c, pw.First),
 			"an order is rejected only when [now-RaiseTime >= DecisionTimeLimit and accepts < MinAccepts] or [rejects > len(signers) - MinAccepts]",
 			fmt.Sprintf("stale-guard=%v reject-guard=%v", a, b))
@@ -799,4 +864,53 @@ func whitelistRules(c *Ctx) {
 		r.Require(ok, "A2.whitelist-action", "action|"+in.Eff.Kind, pos(c, in.Eff.Site), "an address is "+map[string]string{"StoreWrite": "added", "StoreDelete": "removed"}[in.Eff.Kind]+" only for the matching msg.Action", "no action == "+want+" guard on the route")
 	}
 	r.Floor("whitelist writes/deletes reachable from WhitelistAddress", n, 2)
+}
+
+// statusSuppliers: the assignments `<order>.Status = <constant K>` in the functions on the writer's route (the top
+// function, the functions along the call chain, the writing function), each with the chain leading to its function.
+type statusSupplier struct {
+	site  ssa.Instruction
+	chain []ssa.Instruction
+}
+
+func statusSuppliers(c *Ctx, pw poWriter, k string) []statusSupplier {
+	var out []statusSupplier
+	type level struct {
+		f     *ssa.Function
+		chain []ssa.Instruction
+	}
+	levels := []level{{pw.Top, nil}}
+	for i, ci := range pw.Chain {
+		var next *ssa.Function
+		if i+1 < len(pw.Chain) {
+			next = pw.Chain[i+1].Parent()
+		} else {
+			next = pw.Eff.Fn
+		}
+		_ = ci
+		levels = append(levels, level{next, pw.Chain[:i+1]})
+	}
+	seen := map[*ssa.Function]bool{}
+	for _, lv := range levels {
+		if lv.f == nil || seen[lv.f] {
+			continue
+		}
+		seen[lv.f] = true
+		for _, b := range lv.f.Blocks {
+			for _, in := range b.Instrs {
+				st, ok := in.(*ssa.Store)
+				if !ok {
+					continue
+				}
+				fa, ok := st.Addr.(*ssa.FieldAddr)
+				if !ok || fieldAddrName(fa) != "Status" {
+					continue
+				}
+				if e := c.W.ExprOf(st.Val); e.Op == "const" && e.Name == k {
+					out = append(out, statusSupplier{in, lv.chain})
+				}
+			}
+		}
+	}
+	return out
 }
